@@ -667,94 +667,8 @@ func runC07(c *Ctx) {
 
 	// ---------------------------------------------------------------- R7
 	c.rule("R7", "bounded deadlines are armed before waiting for the peer; the waiting flag is maintained", 6)
-	deadlineConst := func(v ssa.Value) (string, bool) {
-		// time.Now().Add(D)
-		cl, ok := v.(*ssa.Call)
-		if !ok || callName(cl) != "(time.Time).Add" {
-			return exprStr(v), false
-		}
-		if n, ok := callName2(cl.Call.Args[0]); !ok || n != "time.Now" {
-			return exprStr(v), false
-		}
-		d := cl.Call.Args[1]
-		okAll := true
-		desc := ""
-		for _, lfv := range expandCases(d, nil, 0) {
-			if n, ok := constInt(lfv.val); ok {
-				if n <= 0 || n > 10*1000000000 {
-					okAll = false
-				}
-				desc += fmt.Sprintf("%ds ", n/1000000000)
-				continue
-			}
-			if k, ok := loadedField(lfv.val); ok && strings.HasSuffix(k, ".testWaitRespTimeout") {
-				desc += "test-override "
-				continue
-			}
-			okAll = false
-			desc += exprStr(lfv.val) + " "
-		}
-		return strings.TrimSpace(desc), okAll
-	}
 	if ex := c.fn(relTransport, "TraditionalDnsConn", "exchange"); ex != nil {
-		n := 0
-		eachInstr(ex, func(in ssa.Instruction) {
-			ci, ok := in.(*ssa.Call)
-			if !ok || !ci.Call.IsInvoke() || ci.Call.Method.Name() != "SetReadDeadline" {
-				return
-			}
-			n++
-			desc, okD := deadlineConst(ci.Call.Args[0])
-			// guarded by CompareAndSwap(false, true) on waitingResp — and by nothing else than "the write succeeded":
-			// the flag is set and the deadline armed for every kind of connection, on every path to the wait
-			cas := false
-			var casCall ssa.Instruction
-			var firstWrite ssa.Instruction
-			eachInstr(ex, func(y ssa.Instruction) {
-				if cl, ok := y.(*ssa.Call); ok && firstWrite == nil {
-					if sc := staticCallee(cl); sc != nil && sc.Name() == "writeQuery" && instrDominates(y, in) {
-						firstWrite = y
-					}
-				}
-			})
-			for _, g := range guardsOfInstr(in) {
-				if firstWrite != nil && !instrDominates(firstWrite, g.If) {
-					continue // established before the query was written
-				}
-				v, truth := g.asBool()
-				if cl, ok := v.(*ssa.Call); ok && truth && callName(cl) == "(*sync/atomic.Bool).CompareAndSwap" {
-					if k, _ := fieldKey(cl.Call.Args[0]); k == T+"TraditionalDnsConn.waitingResp" {
-						cas = true
-						casCall = cl
-					}
-					continue
-				}
-				if cm, ok := g.asCmp(); ok && isNilConst(cm.Y) && cm.X.Type().String() == "error" {
-					continue
-				}
-				cas = false
-				desc += " [extra condition: " + guardText(g) + "]"
-				break
-			}
-			if cas && casCall != nil {
-				// the CAS itself runs on every path from the write to the wait (no short-circuit in front of it)
-				var wait ssa.Instruction
-				eachInstr(ex, func(y ssa.Instruction) {
-					if sel, ok := y.(*ssa.Select); ok && sel.Blocking {
-						wait = y
-					}
-				})
-				if wait == nil || !instrDominates(casCall, wait) {
-					cas = false
-					desc += " [the flag test does not run on every path to the wait]"
-				}
-			}
-			c.check(okD && cas, "waiting-reply-deadline@exchange", instrPos(in), "after the send a constant deadline ("+desc+") is armed once per waiting period",
-				fmt.Sprintf("the waiting-reply deadline is %s (constant <= 10 s required: %v; armed behind waitingResp CAS: %v): a silent server blocks the call for the whole idle timeout", desc, okD, cas))
-		})
-		if n == 0 {
-			c.fail("waiting-reply-deadline@exchange", ex.Pos(), "no read deadline is armed after sending a query")
-		}
+		checkWaitingDeadlineArmed(c, lf, ex)
 	}
 	if rl := c.fn(relTransport, "TraditionalDnsConn", "readLoop"); rl != nil {
 		// The flag says "some query is still unanswered". It is rewritten (D11, D13) after every successful read with
